@@ -252,7 +252,22 @@ def install(ex, game, env):
         return UNIT
     ex.override('board::Board::unmake_move', unmake_move)
 
-    ex.override('board::Board::is_in_check', lambda ctx, bp, color: G.nodes[node_of(ctx, bp)]['in_check'])
+    def is_in_check(ctx, bp, color):
+        """for the side to move: the node's own fact; for the side that has just moved: exactly when the move that led here was
+        illegal (the rule is_legal_move itself applies); at the root, where no move led here, an arbitrary fact"""
+        n = G.nodes[node_of(ctx, bp)]
+        d = simp(color.d) if isinstance(color, Enum) else None
+        own = n['in_check']
+        if n['parent'] is None:
+            other = env.setdefault('root_opp_in_check', z3.Bool('root_side_not_to_move_in_check'))
+        else:
+            other = b_not(G.nodes[n['parent']]['moves'][n['idx']]['legal'])
+        if isinstance(d, CI):
+            return own if d.v == n['turn'] else other
+        if d is None:
+            return own
+        return ite(bv(d) == n['turn'], own, other)
+    ex.override('board::Board::is_in_check', is_in_check)
     ex.override('board::Board::get_halfmove_clock',
                 lambda ctx, bp: G.nodes[node_of(ctx, bp)]['hmc'])
     ex.override('board::Board::position_reached', lambda ctx, bp, key: G.nodes[node_of(ctx, bp)]['repeated'])
@@ -404,6 +419,7 @@ def install(ex, game, env):
         for cond, floor in env.get('clock_floor', []):
             ctx.ex.assume(z3.Implies(zb(cond), z3.UGE(t, floor)))
         env['clock_terms'].append(t)
+        env.setdefault('clock_reads', []).append((ctx.st.guard, t))
         return ('duration', t)
     ex.model(r'^std::time::Instant::elapsed$', instant_elapsed)
     ex.model(r'^std::time::Duration::as_millis$', lambda ctx, d: (ctx.deref(d) if isinstance(d, Ptr) else d)[1])
